@@ -150,9 +150,16 @@ class Canon:
             # bit i of a sum/product depends only on the i+1 low bits of the operands: identify it by their truncations,
             # so that a slice of a wide adder and the same slice of the truncated adder get the same atoms
             nm = 'add' if d == z3.Z3_OP_BADD else 'mul'
+            # prefix ids: pre[i] identifies the i+1 low bits of an operand, built incrementally (linear in the width)
+            pres = []
+            for k_, f in keys:
+                prev = -1; pl = []
+                for i in range(w):
+                    prev = self._id(('pre', prev, f[i])); pl.append(prev)
+                pres.append(pl)
             out = []
             for i in range(w):
-                ks = tuple(sorted(self._id(('bv', tuple(f[:i + 1]))) for k_, f in keys))
+                ks = tuple(sorted(pl[i] for pl in pres))
                 a = self._id((nm, i, cst & ((1 << (i + 1)) - 1), ks))
                 out.append((frozenset(((a, 0),)), 0))
             return out
